@@ -229,7 +229,7 @@ func runC05(r *core.Run, tier string) {
 	if tier == "thorough" {
 		nGen, nSpecial, nNative, nShuffle = 500, 75, 25, 24
 	}
-	r.Rule("a case is one (input, execution) pair: each input (the 12 self-hosted sources in one invocation, every listed sample, generated programs, and programs built to put >= 2 entries in every dictionary fc iterates: records with identical field-name sets with/without Rec. prefix, unions with exhaustive / default / non-exhaustive matches, package_info blocks with many and overlapping entries, long chains of inference variables, and constraint-shape functions over unannotated parameters, ill-typed ones included) is transpiled by fresh fc processes under Go's native map order and under the hook-H1 orders asc, desc, rot:1..3 and seeded shuffles; all executions of one input must agree on every output file's bytes and on accept/reject; the H1 log is the evidence that order-sensitive code was reached; non-trivial = execution under a controlled order; distinct by (input, order)")
+	r.Rule("a case is one (input, execution) pair: each input (the 12 self-hosted sources in one invocation, every listed sample, generated programs, and programs built to put >= 2 entries in every dictionary fc iterates: records with identical field-name sets with/without Rec. prefix, unions with exhaustive / default / non-exhaustive matches, package_info blocks with many and overlapping entries, long chains of inference variables, and constraint-shape functions over unannotated parameters, ill-typed ones included) is transpiled by fresh fc processes under Go's native map order (once in a directory where the output files already exist with other, longer content) and under the hook-H1 orders asc, desc, rot:1..3 and seeded shuffles; all executions of one input must agree on every output file's bytes and on accept/reject; the H1 log is the evidence that order-sensitive code was reached; non-trivial = execution under a controlled order; distinct by (input, order)")
 	r.Assume("every order the hook produces is one Go's map iteration may produce", "diagnostic text is not part of the statement (which uncovered case is named may vary)")
 	var inputs []c05Input
 	// self-hosted sources
@@ -281,6 +281,9 @@ func runC05(r *core.Run, tier string) {
 	for i := 0; i < nNative; i++ {
 		orders = append(orders, "")
 	}
+	// one execution in a directory where every output file already exists with other, longer
+	// content (the result must not depend on what an earlier run left behind)
+	orders = append(orders, "native+stale-outputs")
 	orders = append(orders, "asc", "desc", "rot:1", "rot:2", "rot:3")
 	for i := 0; i < nShuffle; i++ {
 		orders = append(orders, fmt.Sprintf("shuffle:%d", r.SeedV*100+int64(i)))
@@ -308,13 +311,25 @@ func runC05(r *core.Run, tier string) {
 		var envv []string
 		logf := filepath.Join(d, "dict.log")
 		os.MkdirAll(d, 0o755)
-		if orders[j.ord] != "" {
+		files := inputs[j.in].files
+		if orders[j.ord] == "native+stale-outputs" {
+			files = map[string]string{}
+			for n, c := range inputs[j.in].files {
+				files[n] = c
+			}
+			stale := strings.Repeat("// stale line left by an earlier, longer output\n", 60000)
+			for _, a := range inputs[j.in].args {
+				if strings.HasSuffix(a, ".fo") {
+					files[filepath.Join(filepath.Dir(a), "gen_"+strings.TrimSuffix(filepath.Base(a), ".fo")+".go")] = stale
+				}
+			}
+		} else if orders[j.ord] != "" {
 			envv = append(envv, "VERIF_DICT_ORDER="+orders[j.ord])
 		}
 		if j.ord == len(orders)-1 || j.ord == 0 {
 			envv = append(envv, "VERIF_DICT_LOG="+logf)
 		}
-		out := fcx.Transpile(fc, env.PkgAll(), d, inputs[j.in].files, inputs[j.in].args, envv, 120)
+		out := fcx.Transpile(fc, env.PkgAll(), d, files, inputs[j.in].args, envv, 120)
 		o := obs{exit: out.Res.Exit, gens: out.Gen, diag: out.Diag(), wall: out.Res.WallOut, sites: map[string]int{}}
 		var names []string
 		for n := range out.Gen {
@@ -349,6 +364,14 @@ func runC05(r *core.Run, tier string) {
 		in := inputs[j.in]
 		o := results[i]
 		r.Eval(in.id+"@"+orders[j.ord]+fmt.Sprint(j.ord), orders[j.ord] != "")
+		if orders[j.ord] == "native+stale-outputs" && o.exit != 0 {
+			// a rejected input leaves the stale file in place (nothing is written for it): not comparable
+			for n := range o.gens {
+				delete(o.gens, n)
+			}
+			o.sig = results[i-j.ord].sig
+			results[i] = o
+		}
 		kinds[in.kind]++
 		for s, n := range o.sites {
 			if n > siteMax[s] {
